@@ -26,6 +26,9 @@ THEOREMS = {
     "MG.Proofs.C01": [
         "MG.C01.backward_sound",
     ],
+    "MG.Proofs.Lemmas.InPlaceBase": [
+        "MG.C04V.inplace_on_base_seen_through_view",
+    ],
     "MG.Proofs.Lemmas.InPlaceView": [
         "MG.C04V.inplace_through_view_refines_numpy",
     ],
